@@ -94,3 +94,24 @@ struct DtorHintObs {
   CaseObs c;
 };
 DtorHintObs runDtorHintScript(int N);
+
+// Inline-depth cap (h_pool_depth.cpp): a chain that nests inline past detail::kMaxInlineDepth on a pool thread
+// of an overloaded pool and then schedules slow leaves through the "cannot inline any more" branches.
+struct DepthSpec {
+  int N = 2; // pool threads (N-1 of them gated)
+  int setKind = 3; // 1 TaskSet (owned by a pool task), 2 CTS heavy, 3 CTS lightweight (owned by main)
+  int via = 0; // 0 schedule(f), 1 scheduleBulk(bulkN, gen)
+  int bulkN = 1;
+  int chainLen = 36; // levels after the root
+  int leaves = 3;
+  int leafDwellUs = 5000;
+  int stealMult = 4;
+  int fillers = 10;
+  int finish = 0; // 0 wait(), 1 tryWait(n>=1) loop, 2 destructor
+  J json() const;
+};
+struct DepthObs {
+  long maxNest = 0, maxInlineDepth = 0, capHits = 0, tryWait0Polls = 0, tryWait0True = 0;
+  CaseObs c;
+};
+DepthObs runDepthCap(const DepthSpec& s);
